@@ -4376,7 +4376,7 @@ namespace gch
           set_size (new_size);
         }
         else
-          erase_range (unchecked_next (begin_ptr (), new_size), end_ptr ());
+          erase_to_end (unchecked_next (begin_ptr (), new_size));
 
         // Do nothing if the count is the same as the current size.
       }
